@@ -177,13 +177,18 @@ Definition lock_clauses_node (nd : tree) : list tree :=
 Definition c17_clauses (tmo : nat) (exp : list (cmd * tree)) (got : list tree) (waits : list Z) (blocked_main : bool) : list tree :=
   let fix go (exp : list (cmd * tree)) (got : list tree) (waits : list Z) : list tree :=
     match exp, got with
-    | (CWait, _) :: r, g :: r' =>
+    | (CWait, e) :: r, g :: r' =>
         match waits with
         | ms :: wr =>
             (match g with
              | T [_; L m; _] =>
-                 if (m =? 0) || (Z.of_nat tmo * 1000 + 1500 <? ms)
-                 then [clause 17 1 [L (if blocked_main then 1 else 0)]] else []
+                 (if (m =? 0) || (Z.of_nat tmo * 1000 + 1500 <? ms)
+                  then [clause 17 1 [L (if blocked_main then 1 else 0)]] else [])
+                 (* every node finished (the model ends clean) but Execute waited out the timeout *)
+                 ++ (match e with
+                     | T [_; L 1; _] => if m =? 1 then [] else [clause 17 2 []; clause 3 8 []]
+                     | _ => []
+                     end)
              | _ => []
              end) ++ go r r' wr
         | [] => go r r' []
@@ -264,7 +269,10 @@ Definition judge_free (ti tobs : tree) : tree :=
                                         if ndisc (info nt (fst ix)) && (0 <? f) then [clause 4 5 [L 0; L (nid (info nt (fst ix)))]] else []
                                     | _ => []
                                     end) (combine (seq 0 (length ctrs)) ctrs) in
-              let stall_clause := full_clause ++ (if stall_ok =? 0 then [clause 4 3 []] else []) ++ (if cut <? 0 then [] else stall_acct) in
+              (* (17,2)/(3,8): every harness node returns from every call, so the run must end by the clean return of
+                 Execute, not by the shutdown timeout (theorem C03_every_run_ends_clean) *)
+              let clean_clause := if clean then [] else [clause 17 2 []; clause 3 8 []] in
+              let stall_clause := clean_clause ++ full_clause ++ (if stall_ok =? 0 then [clause 4 3 []] else []) ++ (if cut <? 0 then [] else stall_acct) in
               verdict (diff_if (tree_eqb (enc_net nt) netdump) 1) (map enc_pc (flat_map also_c16 fails) ++ stall_clause) (enc_net nt)
                       ((if clean then [30] else [31])
                        ++ (if existsb (fun x => ndisc x) nt then [20] else [])
